@@ -843,6 +843,12 @@ async def _execute(loop, program, observe=None):
         elif name == 'blackhole':
             world.ev('net', 'blackhole', link=op[1])
             conn.link[op[1]].blackhole = True
+        elif name == 'writefail':
+            # a half-open connection: from now on this side's writes fail, its read side stays as it is (no error, no EOF)
+            world.ev('net', 'writefail', link=op[1])
+            w = conn.writer[op[1]]
+            w.fail_writes = True
+            w.unblock()
         elif name == 'reconnect':
             if 'c' in scn.sock:
                 world.ev('c', 'reconnect_call')
